@@ -20,7 +20,7 @@ import numpy as np
 from . import common
 
 PROP = "C18"
-MODULES = ["PdsVerif.Props.C18"]
+MODULES = ["PdsVerif.Props.PreArithTie", "PdsVerif.Props.C18"]
 MODEL_MODULES = ["PdsVerif.Model.Pre"]
 REQUIRED = [
     "PdsVerif.C18." + n
@@ -32,7 +32,18 @@ REQUIRED = [
     not_in_place_pure in_place_same_values in_place_input preemph_apply_float64
     preemph_not_in_place_pure preemph_in_place_same_values
     dither_not_in_place_pure dither_in_place_same_values""".split()
-]
+] + ["PdsVerif.PreArithTie." + n for n in """preemphNp_eq_gen copy_flag_eq_gen dither_copy_flag_eq_gen dither_eq_gen
+    preemphTorch_eq_gen ditherTorch_eq_gen np_pre_upd_spec torch_pre_out_spec np_pre_copies_spec np_dither_copies_spec
+    np_dither_upd_spec torch_dither_out_spec np_dither_eq_torch np_pre_eq_torch""".split()]
+
+
+def translate(repo):
+    """whole-array statements of Preemphasize / Dither (pre.py) and their PyTorch forms (torch.py)
+    -> Generated/PreArith.lean (theorems: Props/PreArithTie.lean)"""
+    from .translate import prearith
+    return prearith.generate(repo)
+
+
 RULE = (
     "case = (op in {Preemphasize, Dither} x {numpy class, torch module}, dtype in int16/int32/float32/float64, "
     "shape (1-D lengths 0,1,2,..12 dense, up to 300; 2-D/3-D with every axis value), in_place, coefficient "
@@ -76,7 +87,9 @@ LEVEL_TEXT = (
     "returns the same values. Distribution of the noise and seed reproducibility are sampled only."
 )
 LEVEL_NOTE = (
-    "Trusted: Lean kernel + std axioms, NumPy/torch slicing/astype/cat semantics named in the model, exact-rational "
+    "Tie: the per-sample update functions and the copy condition are regenerated from pre.py / torch.py on every run and "
+    "proved to be what the list model applies (PreArithTie) and the documented formulas. "
+    "Trusted: Lean kernel + std axioms, the prearith translator, NumPy/torch slicing/astype/cat semantics named in the model, exact-rational "
     "stand-in for float64 (exact tie when representable, two-rounding tolerance otherwise), noise vector read from the "
     "implementation at coeff 1 / zero signal. Statistical clauses (mean 0, std coeff) are sampled, not proved."
 )
